@@ -551,3 +551,147 @@ Proof.
   - exact Hfuel.
 Qed.
 
+
+(* ------------------------------------------------------------------------------------ *)
+(* The default loop order                                                                 *)
+(* ------------------------------------------------------------------------------------ *)
+Lemma canonical_ranks_NoDup e : NoDup (canonical_ranks e).
+Proof. apply dedup_NoDup. Qed.
+
+Lemma default_loop_order_spec e ps ps' fuel :
+  same_ranks_b e = true -> plain_first e = true ->
+  NoDup (map fst ps) -> fresh_b ps = true -> Permutation ps ps' -> 2 <= fuel ->
+  code_default_loop_order fuel e ps' = Some (canonical_order e ps).
+Proof.
+  intros Hs Hp Hk Hfr Hperm Hfuel. unfold code_default_loop_order, canonical_order.
+  rewrite (code_einsum_ranks_canonical e Hs Hp).
+  apply part_loop_expand; try assumption. apply canonical_ranks_NoDup.
+Qed.
+
+(* outside the class: still the in-place expansion of a permutation of the canonical ranks
+   that begins with the output ranks *)
+Lemma default_loop_order_perm e ps ps' fuel :
+  same_ranks_b e = true -> NoDup (access_ranks_code (e_oidx e)) ->
+  NoDup (map fst ps) -> fresh_b ps = true -> Permutation ps ps' -> 2 <= fuel ->
+  exists l tail, Permutation l (canonical_ranks e) /\ l = access_ranks_code (e_oidx e) ++ tail /\
+                 code_default_loop_order fuel e ps' = Some (expand ps l).
+Proof.
+  intros Hs Hnd Hk Hfr Hperm Hfuel.
+  destruct (code_einsum_ranks_perm e Hs Hnd) as [l [Hl [Hpl [Hndl [tail Ht]]]]].
+  exists l, tail. split; [exact Hpl|]. split; [exact Ht|].
+  unfold code_default_loop_order. rewrite Hl. apply part_loop_expand; assumption.
+Qed.
+
+(* with no partitioning the loop order is the canonical rank list itself *)
+Lemma canonical_order_no_parts e : canonical_order e [] = canonical_ranks e.
+Proof. apply expand_nil. Qed.
+
+(* the faithful model of the pinned tree does NOT satisfy "order of first appearance" *)
+Definition wit_take : einsum :=
+  mkEinsum "Z" []
+    [TTake [FTen "A" [[IJust "j"]; [IJust "m"]]; FTen "B" [[IJust "n"]]] 0;
+     TTimes [FTen "C" [[IJust "n"]; [IJust "m"]; [IJust "j"]]]].
+Definition wit_coeff : einsum :=
+  mkEinsum "Z" []
+    [TTimes [FTen "I" [[ITimes 2 "q"; IJust "s"]]; FTen "F" [[IJust "s"]]; FTen "G" [[IJust "q"]]]].
+
+Lemma first_appearance_refuted_take :
+  same_ranks_b wit_take = true /\ canonical_ranks wit_take = ["J"; "M"; "N"] /\
+  code_einsum_ranks wit_take = Some ["N"; "M"; "J"].
+Proof. vm_compute. repeat split. Qed.
+
+Lemma first_appearance_refuted_coeff :
+  same_ranks_b wit_coeff = true /\ canonical_ranks wit_coeff = ["Q"; "S"] /\
+  code_einsum_ranks wit_coeff = Some ["S"; "Q"].
+Proof. vm_compute. repeat split. Qed.
+
+Lemma first_appearance_refuted :
+  exists e, same_ranks_b e = true /\ NoDup (access_ranks_code (e_oidx e)) /\
+            code_einsum_ranks e <> Some (canonical_ranks e).
+Proof.
+  exists wit_take. split; [vm_compute; reflexivity|]. split; [constructor|]. vm_compute. discriminate.
+Qed.
+
+(* ------------------------------------------------------------------------------------ *)
+(* rank order and partitioning                                                            *)
+(* ------------------------------------------------------------------------------------ *)
+Lemma lookup_app {A} k (a b : list (string * A)) :
+  lookup k (a ++ b) = match lookup k a with Some v => Some v | None => lookup k b end.
+Proof.
+  induction a as [|[k' v] t IH]; simpl; [reflexivity|]. destruct (String.eqb k k'); [reflexivity|apply IH].
+Qed.
+
+Lemma resolve_omitted d : resolve_rank_orders d [] = declared_rank_orders d.
+Proof.
+  unfold resolve_rank_orders, declared_rank_orders. induction d as [|[k v] t IH]; simpl; [reflexivity|].
+  f_equal. exact IH.
+Qed.
+
+(* writing the declared order of any set S of tensors into the rank-order section changes nothing *)
+Lemma resolve_explicit_default d ro S : NoDup (map fst d) ->
+  resolve_rank_orders d (ro ++ filter (fun x => smem (fst x) S) (declared_rank_orders d)) = resolve_rank_orders d ro.
+Proof.
+  intro Hk. unfold resolve_rank_orders, declared_rank_orders. apply map_ext_in. intros [k v] Hin. simpl.
+  rewrite lookup_app. destruct (lookup k ro) as [o|]; [reflexivity|]. f_equal.
+  destruct (lookup k (filter (fun x => smem (fst x) S) d)) as [o'|] eqn:E; [|reflexivity].
+  apply lookup_In in E. apply filter_In in E as [E _].
+  pose proof (lookup_NoDup_In k d o' Hk E) as H1. pose proof (lookup_NoDup_In k d v Hk Hin) as H2. congruence.
+Qed.
+
+Lemma einsum_parts_omitted {D} (m : part_section D) z : lookup z m = None -> einsum_parts m z = [].
+Proof. unfold einsum_parts. intros ->. reflexivity. Qed.
+
+(* `Z: {}`, `Z:` (null) and `Z: {K: [], M: []}` all mean "no partitioning" *)
+Lemma einsum_parts_explicit_empty {D} (m : part_section D) z rs :
+  einsum_parts ((z, map (fun r => (r, [])) rs) :: m) z = [].
+Proof.
+  unfold einsum_parts. simpl. rewrite String.eqb_refl. induction rs as [|r t IH]; simpl; [reflexivity|exact IH].
+Qed.
+
+Lemma einsum_parts_other {D} (m : part_section D) z z' x : z' <> z ->
+  einsum_parts ((z, x) :: m) z' = einsum_parts m z'.
+Proof.
+  intro H. unfold einsum_parts. simpl. destruct (String.eqb z' z) eqn:E; [apply String.eqb_eq in E; contradiction|reflexivity].
+Qed.
+
+Lemma empty_partitioning : forall (D : Type) (m : part_section D) z rs, lookup z m = None ->
+  einsum_parts m z = [] /\ einsum_parts ((z, map (fun r => (r, [])) rs) :: m) z = [] /\
+  forall z' x, z' <> z -> einsum_parts ((z, x) :: m) z' = einsum_parts m z'.
+Proof.
+  intros D m z rs H. split; [exact (einsum_parts_omitted m z H)|].
+  split; [exact (einsum_parts_explicit_empty m z rs)|]. intros z' x. exact (einsum_parts_other m z z' x).
+Qed.
+
+Lemma part_loop_no_parts fuel ranks : 1 <= fuel -> part_loop fuel [] ranks = Some ranks.
+Proof. destruct fuel; [lia|reflexivity]. Qed.
+
+(* ------------------------------------------------------------------------------------ *)
+(* the hypotheses are satisfiable by non-trivial objects                                   *)
+(* ------------------------------------------------------------------------------------ *)
+(* Z[m, n] = A[k, m] * B[k, n] + take(C[n, k], D[m], 1), K split twice, M split once *)
+Definition ex_gemm : einsum :=
+  mkEinsum "Z" [[IJust "m"]; [IJust "n"]]
+    [TTimes [FTen "A" [[IJust "k"]; [IJust "m"]]; FTen "B" [[IJust "k"]; [IJust "n"]]];
+     TTake [FTen "C" [[IJust "n"]; [IJust "k"]]; FTen "D" [[IJust "m"]]] 1].
+Definition ex_parts : parts := [("K", 2); ("M", 1)].
+
+Example ex_gemm_hyps :
+  same_ranks_b ex_gemm = true /\ plain_first ex_gemm = true /\ NoDup (map fst ex_parts) /\ fresh_b ex_parts = true.
+Proof. repeat split; try (vm_compute; reflexivity). repeat constructor; simpl; intuition congruence. Qed.
+
+Example ex_gemm_default :
+  code_default_loop_order 2 ex_gemm [("M", 1); ("K", 2)] = Some ["M1"; "M0"; "N"; "K2"; "K1"; "K0"] /\
+  canonical_order ex_gemm ex_parts = ["M1"; "M0"; "N"; "K2"; "K1"; "K0"].
+Proof. vm_compute. split; reflexivity. Qed.
+
+(* strided convolution: O[q] = I[2*q + s] * F[s]; coefficient first, but q is an output rank *)
+Definition ex_conv : einsum :=
+  mkEinsum "O" [[IJust "q"]] [TTimes [FTen "I" [[ITimes 2 "q"; IJust "s"]]; FTen "F" [[IJust "s"]]]].
+Example ex_conv_outside_class_but_equal :
+  plain_first ex_conv = false /\ code_einsum_ranks ex_conv = Some (canonical_ranks ex_conv).
+Proof. vm_compute. split; reflexivity. Qed.
+
+Example ex_rank_orders :
+  resolve_rank_orders [("A", ["K"; "M"]); ("B", ["K"; "N"]); ("Z", ["M"; "N"])] [("B", ["N"; "K"])] =
+  [("A", ["K"; "M"]); ("B", ["N"; "K"]); ("Z", ["M"; "N"])].
+Proof. reflexivity. Qed.
